@@ -475,3 +475,126 @@ func VerifC11Burst(tries, n, last, same int) {
 	verifAssert(verifGoroutines() == 0, "no-goroutine-left-after-close")
 	verifReach("end")
 }
+
+// VerifC11ReadFault: the socket starts failing reads at a symbolic instant while a call is
+// pending (matcher != 0: with a matcher; 0: without, any message with the id is acceptable). The
+// call still ends within its schedule with an error (never with a nil response and a nil error),
+// the id is released and Close returns leaving no goroutine.
+func VerifC11ReadFault(tries, matcher int) {
+	k := &verifCall{conn: newVerifConn(), ctxAt: -1, closeAt: -1}
+	verifNewClient(k, tries)
+	c := k.c
+	at := int64(verifU64("fault.at"))
+	verifAssume(at >= 0)
+	verifAssume(at < k.budget)
+	k.conn.failReadAt(at)
+	var m Matcher
+	if matcher != 0 {
+		m = IsMessageType(dhcpv6.MessageTypeAdvertise)
+	}
+	k.start = verifNow()
+	k.resp, k.err = c.SendAndRead(newVerifCtx(), k.dest, k.req, m)
+	k.end = verifNow()
+	verifAssert(k.resp == nil, "no-response")
+	verifAssert(k.err != nil, "error-when-no-response")
+	verifAssert(k.end-k.start <= k.budget, "returns-within-T-times-2^tries-1")
+	c.pendingMu.Lock()
+	_, still := c.pending[verifXID]
+	c.pendingMu.Unlock()
+	verifAssert(!still, "transaction-id-released")
+	c.Close()
+	verifSettle()
+	verifAssert(verifGoroutines() == 0, "no-goroutine-left-after-close")
+	verifReach("end")
+}
+
+// VerifC11CloseAtOnce: Close immediately after the client was created (the receive loop may not
+// have run a single statement yet), and Close right after a call returned: when Close returns the
+// receive loop has stopped — no goroutine is left at that very instant, not merely later.
+func VerifC11CloseAtOnce(callFirst int) {
+	conn := newVerifConn()
+	c, err := NewWithConn(conn, verifHW, WithTimeout(time.Duration(int64(verifU32("T"))+1)), WithRetry(1))
+	verifAssert(err == nil, "client-created")
+	if callFirst != 0 {
+		req := &dhcpv6.Message{MessageType: dhcpv6.MessageTypeSolicit, TransactionID: verifXID}
+		_, _ = c.SendAndRead(newVerifCtx(), verifDest(), req, nil)
+	}
+	cerr := c.Close()
+	verifAssert(cerr == nil, "close-returns")
+	verifAssert(verifGoroutines() == 0, "receive-loop-stopped-when-close-returns")
+	verifSettle()
+	verifAssert(verifGoroutines() == 0, "no-goroutine-left-after-close")
+	verifReach("end")
+}
+
+// VerifC10SlowMatcher: a caller that is busy inside its matcher while a burst arrives. n datagrams
+// routed to the call arrive in one instant during the second try; all are rejected by the matcher
+// except the last, which is acceptable; the matcher's first invocation takes S (symbolic) of
+// virtual time, so the receive loop finds the transaction's buffer full and has to wait for the
+// caller. The call returns the acceptable datagram — the first one in arrival order — as soon as
+// the matcher has got to it.
+func VerifC10SlowMatcher(n int) {
+	k := &verifCall{conn: newVerifConn(), ctxAt: -1, closeAt: -1}
+	verifNewClient(k, 2)
+	c := k.c
+	a := int64(verifU64("burst.at"))
+	s := int64(verifU64("matcher.takes"))
+	verifAssume(a > k.T) // during the second try
+	verifAssume(a <= 1<<36)
+	verifAssume(s > 0)
+	verifAssume(s < 3*k.T)
+	verifAssume(a+s < 3*k.T) // the matcher is done before the call's schedule ends
+	var burst [][]byte
+	for i := 0; i < n; i++ {
+		mt := dhcpv6.MessageTypeReply // rejected by the ADVERTISE matcher
+		if i == n-1 {
+			mt = dhcpv6.MessageTypeAdvertise
+		}
+		p := &dhcpv6.Message{MessageType: mt, TransactionID: verifXID}
+		p.AddOption(&dhcpv6.OptionGeneric{OptionCode: dhcpv6.OptionCode(250), OptionData: []byte{byte(i)}})
+		burst = append(burst, p.ToBytes())
+	}
+	from := &net.UDPAddr{IP: net.IP{0xfe, 0x80, 0, 0, 0, 0, 0, 0, 0, 0, 0, 0, 0, 0, 0, 1}, Port: 547}
+	verifAt(a, func() {
+		for _, d := range burst {
+			select {
+			case k.conn.in <- verifDgram{data: d, from: from}:
+			default:
+			}
+		}
+	})
+	calls := 0
+	var seen []byte
+	tagOf := func(p *dhcpv6.Message) []byte {
+		if g, ok := p.GetOneOption(dhcpv6.OptionCode(250)).(*dhcpv6.OptionGeneric); ok {
+			return g.OptionData
+		}
+		return nil
+	}
+	matcher := func(p *dhcpv6.Message) bool {
+		calls++
+		if calls == 1 {
+			<-time.After(time.Duration(s))
+		}
+		seen = append(seen, tagOf(p)...)
+		return p.MessageType == dhcpv6.MessageTypeAdvertise
+	}
+	k.start = verifNow()
+	k.resp, k.err = c.SendAndRead(newVerifCtx(), k.dest, k.req, matcher)
+	k.end = verifNow()
+	verifAssert(k.err == nil && k.resp != nil, "first-acceptable-datagram-in-arrival-order-ends-the-call")
+	if k.resp != nil {
+		verifAssert(k.resp.MessageType == dhcpv6.MessageTypeAdvertise, "response-satisfies-matcher")
+		verifAssert(len(tagOf(k.resp)) == 1 && tagOf(k.resp)[0] == byte(n-1), "response-is-a-datagram-that-arrived-during-the-call")
+		verifAssert(k.end == a+s, "returns-as-soon-as-acceptable-response-arrives")
+	}
+	// the matcher saw every datagram of the burst, in arrival order, none dropped
+	verifAssert(len(seen) == n, "no-routed-datagram-dropped")
+	for i := range seen {
+		verifAssert(seen[i] == byte(i), "datagrams-judged-in-arrival-order")
+	}
+	c.Close()
+	verifSettle()
+	verifAssert(verifGoroutines() == 0, "no-goroutine-left-after-close")
+	verifReach("end")
+}
